@@ -12,6 +12,9 @@ impl Read for Script {
         if c == usize::MAX {
             return Err(io::Error::new(io::ErrorKind::Other, "scripted error"));
         }
+        if c == usize::MAX - 1 {
+            return Err(io::Error::new(io::ErrorKind::Interrupted, "scripted interruption"));
+        }
         let n = c.min(buf.len()).min(self.data.len() - self.pos);
         buf[..n].copy_from_slice(&self.data[self.pos..self.pos + n]);
         self.pos += n;
@@ -25,6 +28,9 @@ impl Write for Sink {
         self.k += 1;
         if c == usize::MAX {
             return Err(io::Error::new(io::ErrorKind::Other, "scripted error"));
+        }
+        if c == usize::MAX - 1 {
+            return Err(io::Error::new(io::ErrorKind::Interrupted, "scripted interruption"));
         }
         let n = c.min(buf.len());
         self.out.extend_from_slice(&buf[..n]);
@@ -162,7 +168,7 @@ pub fn iter_adaptors(_args: &[String]) -> String {
     }
     // ---- Read: short reads, errors, read_exact, read_to_string
     let data: Vec<u8> = (0..97u8).collect();
-    for chunks in [vec![1usize], vec![5, 0, 3], vec![64], vec![2, usize::MAX, 4], vec![usize::MAX]] {
+    for chunks in [vec![1usize], vec![5, 0, 3], vec![64], vec![2, usize::MAX, 4], vec![usize::MAX], vec![2, usize::MAX - 1, 4], vec![usize::MAX - 1, usize::MAX - 1, 3]] {
         for bufsz in [1usize, 8, 200] {
             let pb = ProgressBar::hidden();
             let mut plain = Script { data: data.clone(), pos: 0, chunks: chunks.clone(), k: 0 };
@@ -174,10 +180,10 @@ pub fn iter_adaptors(_args: &[String]) -> String {
                 let ra = plain.read(&mut a);
                 let rb = wrapped.read(&mut b);
                 tried += 1;
-                let same = match (&ra, &rb) { (Ok(x), Ok(y)) => x == y && a == b, (Err(_), Err(_)) => true, _ => false };
+                let same = match (&ra, &rb) { (Ok(x), Ok(y)) => x == y && a == b, (Err(x), Err(y)) => x.kind() == y.kind(), _ => false };
                 if let Ok(n) = rb { total += n as u64; }
                 if !same || pb.position() != total {
-                    return fail("C17 Read: same results and bytes, position == bytes read", format!("chunks {:?} buf {}: plain {:?} wrapped {:?} position {} expected {}", chunks, bufsz, ra.ok(), rb.ok(), pb.position(), total));
+                    return fail("C17 Read: same results (also the kind of an error, Interrupted included) and bytes, position == bytes read", format!("chunks {:?} buf {}: plain {:?} wrapped {:?} position {} expected {}", chunks, bufsz, ra.ok(), rb.ok(), pb.position(), total));
                 }
             }
         }
@@ -239,7 +245,7 @@ pub fn iter_adaptors(_args: &[String]) -> String {
             let ra = plain.seek(f);
             let rb = w.seek(f);
             tried += 1;
-            let same = match (&ra, &rb) { (Ok(x), Ok(y)) => x == y, (Err(_), Err(_)) => true, _ => false };
+            let same = match (&ra, &rb) { (Ok(x), Ok(y)) => x == y, (Err(x), Err(y)) => x.kind() == y.kind(), _ => false };
             let want = match &rb { Ok(p) => *p, Err(_) => start_pos };
             if !same || pb.position() != want {
                 return fail("C17 a seek returns the inner result and sets the position to the new offset (unchanged on error)", format!("{:?} from stream offset 20, bar at {}: plain {:?} wrapped {:?} position {}", f, start_pos, ra.ok(), rb.ok(), pb.position()));
@@ -263,7 +269,7 @@ pub fn iter_adaptors(_args: &[String]) -> String {
         }
     }
     // ---- Write: short writes, errors, vectored
-    for chunks in [vec![1usize], vec![3, 0, 7], vec![100], vec![2, usize::MAX, 4]] {
+    for chunks in [vec![1usize], vec![3, 0, 7], vec![100], vec![2, usize::MAX, 4], vec![2, usize::MAX - 1, 4], vec![usize::MAX - 1, usize::MAX - 1, 3]] {
         let pb = ProgressBar::hidden();
         let mut plain = Sink { out: vec![], chunks: chunks.clone(), k: 0 };
         let mut w = pb.wrap_write(Sink { out: vec![], chunks: chunks.clone(), k: 0 });
@@ -277,10 +283,10 @@ pub fn iter_adaptors(_args: &[String]) -> String {
                 (plain.write(payload), w.write(payload))
             };
             tried += 1;
-            let same = match (&ra, &rb) { (Ok(x), Ok(y)) => x == y, (Err(_), Err(_)) => true, _ => false };
+            let same = match (&ra, &rb) { (Ok(x), Ok(y)) => x == y, (Err(x), Err(y)) => x.kind() == y.kind(), _ => false };
             if let Ok(n) = rb { total += n as u64; }
             if !same || pb.position() != total {
-                return fail("C17 Write: same results, position == bytes written", format!("chunks {:?} call {}: plain {:?} wrapped {:?} position {} expected {}", chunks, i, ra.ok(), rb.ok(), pb.position(), total));
+                return fail("C17 Write: same results (also the kind of an error, Interrupted included), position == bytes written", format!("chunks {:?} call {}: plain {:?} wrapped {:?} position {} expected {}", chunks, i, ra.ok(), rb.ok(), pb.position(), total));
             }
         }
         let _ = w.flush();
